@@ -4,15 +4,18 @@ set -e
 cd "$(dirname "$0")"
 export GOFLAGS=-mod=mod GOPROXY=off GOSUMDB=off GOTOOLCHAIN=local CGO_ENABLED=0
 mkdir -p .work evidence replays
-(cd translator && go build -o bin/gmqtr .)
 python3 - <<'PY'
-import sys; sys.path.insert(0, "lib")
+import os, sys; sys.path.insert(0, "lib")
 import vlib
-st = vlib.run_translator()
+names = sorted(os.listdir("translator/cmd"))
+st = vlib.run_translator(names)
 bad = {k: v for k, v in st["files"].items() if v["status"] != "ok"}
-print("translator:", len(st["files"]), "generated files;", "unrecognised:", bad)
+print("translators:", names, "->", len(st["files"]), "generated files; unrecognised:", bad)
+vlib.coq_makefile()
+for n in sorted(os.listdir("harness/cmd")):
+    exe, err = vlib.build_harness(n)
+    print("harness", n, "ok" if exe else "FAILED\n" + err)
+    if not exe: sys.exit(1)
 PY
-(cd coq && coq_makefile -f _CoqProject -o Makefile >/dev/null && timeout 3000 make -j16 2>&1 | tail -5)
-cp /repo/go.sum harness/go.sum
-(cd harness && go build -tags verif -o bin/gmqh ./cmd/gmqh)
+(cd coq && timeout 3000 make -j16 2>&1 | tail -5)
 echo setup done
